@@ -153,6 +153,27 @@ fn rename_inputs() -> Vec<String> {
     for l in [58usize, 59, 60, 61, 62, 63] {
         v.push(format!("{}._t._tcp.local.", "n".repeat(l)));
     }
+    // a multi-byte character at every offset around the place where a long label is cut to make
+    // room for the suffix, for labels of 56..63 bytes, without and with an existing " (9)" / " (99)"
+    for l in multibyte_labels(" (9)", " (99)") {
+        v.push(format!("{l}._t._tcp.local."));
+    }
+    v
+}
+/// Labels of 56..=63 bytes holding one 2-, 3- or 4-byte character at byte offset 48.., padded with
+/// ASCII; plain and ending in each of the two given suffixes.
+pub fn multibyte_labels(suffix1: &str, suffix2: &str) -> Vec<String> {
+    let mut v = vec![];
+    for c in ["é", "日", "😀"] {
+        for total in 56usize..=63 {
+            for tail in ["", suffix1, suffix2] {
+                let body = total - tail.len();
+                for p in 48..=(body - c.len()) {
+                    v.push(format!("{}{c}{}{tail}", "n".repeat(p), "n".repeat(body - p - c.len())));
+                }
+            }
+        }
+    }
     v
 }
 fn rename_hosts() -> Vec<String> {
@@ -168,6 +189,9 @@ fn rename_hosts() -> Vec<String> {
     ];
     for l in [58usize, 60, 61, 62, 63] {
         v.push(format!("{}.local.", "h".repeat(l)));
+    }
+    for l in multibyte_labels("-9", "-99") {
+        v.push(format!("{l}.local."));
     }
     v
 }
@@ -194,6 +218,9 @@ fn run_l2(i: u64) -> CaseResult {
             }
             if !out.ends_with(if is_host { ".local." } else { "._t._tcp.local." }) {
                 res.viols.push(viol("C08|L|rename-changes-more-than-the-first-label", format!("{input:?} -> {out:?}")));
+            }
+            if std::str::from_utf8(crate::c02::labels_of(&out).first().map_or(&[][..], |l| &l[..])).is_err() {
+                res.viols.push(viol("C08|L|renamed-label-is-not-utf8", format!("{input:?} -> {out:?}")));
             }
             if first_label_len(&out) > 63 && first_label_len(&input) <= 63 {
                 res.viols.push(viol(
@@ -545,7 +572,7 @@ pub fn check(tier: &str) -> i32 {
     let nl2 = (rename_inputs().len() + rename_hosts().len()) as u64;
     let l2 = FnPart {
         name: "L-rename-functions".into(),
-        rule: "name_change / hostname_change on names with existing (N) / -N suffixes, u32::MAX, escaped dots, non-ASCII, first labels of 58..63 bytes".into(),
+        rule: "name_change / hostname_change on names with existing (N) / -N suffixes, u32::MAX, escaped dots, non-ASCII, first labels of 58..63 bytes, and first labels of 56..63 bytes with a 2-, 3- or 4-byte character at every byte offset from 48 on (plain and already carrying a one- or two-digit suffix)".into(),
         n: nl2,
         describe: Box::new(|i| format!("input #{i}")),
         run: Box::new(|i, _| run_l2(i)),
